@@ -60,7 +60,7 @@ def gen_cases(ctx):
              {"kind": "enc", "f": [b"transient".hex(), "", "", ""]},
              {"kind": "enc", "f": ["3a", "3a3a", "003a", "ff"]},
              {"kind": "bad", "s": None}]
-    for _ in range(ctx.scale(250, 6000)):
+    for _ in range(ctx.scale(600, 6000)):
         t = rng.choice(["hap", "hap", "legacy", "transient"])
         if t == "hap":
             f = [_field(rng) for _ in range(4)]
